@@ -23,6 +23,7 @@ type Ob struct {
 	Req0 string   // one more clause, evaluated first (readability of long binding patterns)
 	Opt  bool     // Min = 0 allowed
 	Forbid bool   // every matching site is a violation (expected count zero)
+	MutOK []string // parameters (names from P) that the function may legitimately rebind before the sink
 	Why  string
 }
 
@@ -139,6 +140,31 @@ func evalOb(c *Ctx, e *e1, ob Ob) {
 	}
 	base := paramTerms(fi, ob.P)
 	kind := strings.Fields(ob.Kind)[0]
+	// the value that is checked must be the caller's value: parameters the rule talks about are not rebound
+	if len(clauses) > 0 && !ob.Forbid {
+		used := strings.Join(ob.Req, " ") + " " + ob.Req0 + " " + ob.Pat
+		nparams := 0
+		if fi.Sig != nil {
+			nparams = fi.Sig.Params().Len()
+			if fi.Sig.Recv() != nil {
+				nparams++
+			}
+		}
+		for i, name := range ob.P {
+			if name == "" || contains(ob.MutOK, name) || i >= nparams {
+				continue
+			}
+			v, bound := base[name]
+			if !bound || !strings.Contains(used, "$"+name) {
+				continue
+			}
+			if rebindable(v.Obj.Type()) {
+				continue
+			}
+			_ = i
+			clauses = append(clauses, mustClause("orig($"+name+")"))
+		}
+	}
 	matched := 0
 	ord := map[string]int{}
 	for _, s := range f.sites {
@@ -227,8 +253,14 @@ func evalOb(c *Ctx, e *e1, ob Ob) {
 		return
 	}
 	if matched < min {
-		c.R.Find(Finding{Rule: "vacuity", Func: fi.Name, Construct: ob.ID + " " + ob.Kind + " " + ob.Pat, Pos: c.P.Position(fi.Pos()),
-			Msg: fmt.Sprintf("rule %s expects at least %d sink(s) `%s %s` in %s but found %d: the sink moved or was renamed (an obligation that cannot be evaluated is not discharged)", ob.ID, min, ob.Kind, ob.Pat, fi.Name, matched), Ctl: fi.Ctl})
+		if strings.HasPrefix(ob.ID, "E8.") || strings.HasPrefix(ob.ID, "E7.") || (ob.Why != "" && ob.Pat != "") {
+			// a binding / table obligation: the required shape itself is the rule
+			c.R.Find(Finding{Rule: ob.ID, Func: fi.Name, Construct: "required shape absent: " + ob.Kind + " " + ob.Pat, Pos: c.P.Position(fi.Pos()),
+				Msg: fmt.Sprintf("%s must contain %d site(s) of the shape `%s %s`%s; found %d - the values are no longer routed this way (or the construct was renamed: then re-point the rule)", fi.Name, min, ob.Kind, ob.Pat, whySuffix(ob.Why), matched), Ctl: fi.Ctl})
+		} else {
+			c.R.Find(Finding{Rule: "vacuity", Func: fi.Name, Construct: ob.ID + " " + ob.Kind + " " + ob.Pat, Pos: c.P.Position(fi.Pos()),
+				Msg: fmt.Sprintf("rule %s expects at least %d sink(s) `%s %s` in %s but found %d: the sink moved or was renamed (an obligation that cannot be evaluated is not discharged)", ob.ID, min, ob.Kind, ob.Pat, fi.Name, matched), Ctl: fi.Ctl})
+		}
 	}
 	if ob.Max > 0 && matched > ob.Max {
 		c.R.Find(Finding{Rule: ob.ID, Func: fi.Name, Construct: "more sinks than specified: " + ob.Kind + " " + ob.Pat, Pos: c.P.Position(fi.Pos()),
@@ -257,4 +289,11 @@ func e1Controls() []Ob {
 	obs = append(obs, Ob{ID: "E1", Fn: "zzverifctl.Bad_E1_oror", P: []string{"r"}, Kind: "call", Pat: "e1sink($r)", Req: []string{`neq($r.Client, "")`, "true(e1valid($r.ID))"}})
 	obs = append(obs, Ob{ID: "E1", Fn: "zzverifctl.Good_E1_loop", Kind: "call", Pat: "e1sink($r)", Req: []string{"ok(e1check($r.ID, $id))"}})
 	return obs
+}
+
+
+// rebindable: parameter types that handlers conventionally rebind (ctx = ..., r = r.WithContext(ctx)).
+func rebindable(t types.Type) bool {
+	ts := typeStr(t)
+	return ts == "context.Context" || ts == "*http.Request"
 }
